@@ -36,7 +36,7 @@ ANCHORS = ['pfhedge.nn.functional:pl',
            'pfhedge.nn.modules.hedger:Hedger.compute_pl']
 PYTEST_WORKLOAD = True  # thorough tier also runs /repo/tests with these passive monitors attached (DESIGN.md 2.7)
 DECIDING = ["pl.exact", "hedger.pl_identity", "terminal_value.alias"]
-REQUIRED_BRANCHES = ["pl.cost_none", "pl.cost_given", "pl.first_cost_off", "pl.payoff_none", "hedger.compute_portfolio", "hedger.compute_pl"]
+REQUIRED_BRANCHES = ["pl.cost_none", "pl.cost_given", "pl.first_cost_off", "pl.payoff_none", "hedger.compute_portfolio", "hedger.compute_pl", "hedger.second_simulation"]
 
 _CTX = None
 _TAPS = []
@@ -201,7 +201,8 @@ def _make_hedger_pl(which):
             ctx.branch("hedger." + which)
             hl = hedge if hedge is not None else list(derivative.underliers())
             with torch.no_grad():
-                spots = torch.stack([h.spot for h in hl], dim=1)
+                # a listed derivative's price is recomputed through its pricer (not read back through .spot, which is the code under test)
+                spots = torch.stack([h.pricer(h) if getattr(h, "pricer", None) is not None else h.spot for h in hl], dim=1)
                 costs = [h.cost for h in hl]
                 payoff = derivative.payoff() if which == "compute_pl" else None
             unit = rec.get("hedge")
@@ -314,6 +315,16 @@ def drv_hedger(ctx, k, rng):
     ctx.check("hedger.pl_minus_portfolio", ok, "pl_vs_portfolio",
               "compute_pl != compute_portfolio - payoff", sig=(desc["derivative"], desc["hedge"], desc["model"]),
               desc=desc, pl=a, portfolio=b, payoff=pay)
+    # a second simulation with the same path count: prices of listed hedges, payoffs and features must follow the new paths
+    if rng.random() < 0.6:
+        ctx.branch("hedger.second_simulation")
+        if rng.random() < 0.5:
+            derivative.simulate(n_paths=n_paths)
+        else:
+            derivative.ul().simulate(n_paths=n_paths, time_horizon=derivative.maturity)  # directly through the shared underlier
+        with torch.no_grad():
+            hedger.compute_pl(derivative, hedge)
+            hedger.compute_portfolio(derivative, hedge)
     if k < 4:
         ctx.sample({"driver": "hedger", **desc, "pl_head": a[:3]})
 
